@@ -953,6 +953,111 @@ def _c10_samepid_worker(args):
     return res
 
 
+# ------------------------------------------------------------------ C10: one failing file-system call on the hub side
+def _c10_diskfault_worker(args):
+    """One session per (program, k): the k-th mutating libc call of the server fails once with ENOSPC / EIO / EDQUOT
+    (not executed), for every k. "At every instant every listable path holds the initial content or the complete,
+    verified bytes of one write" does not depend on why a write went wrong: afterwards every listable path must hold
+    one of those, and a Put acknowledged as committed must be the live content (unless a later Put replaced it)."""
+    seedv, idx, wroot = args
+    res = {"evaluations": 0, "distinct": set(), "viol": [], "counters": {}, "samples": [], "inconclusive": 0}
+    cn = res["counters"]
+
+    def cnt(k, n=1):
+        cn[k] = cn.get(k, 0) + n
+
+    b3 = B3()
+    rng = SplitMix.derive(seedv, "c10diskfault", idx)
+    wd = os.path.join(wroot, "df%d" % idx)
+    home = os.path.join(wd, "home")
+    root = os.path.join(wd, "hub")
+    env = base_env(home)
+
+    def blob(tag, size):
+        return (b"%s-%d-" % (tag.encode(), idx)) + rng.bytes(8).hex().encode() + bytes(rng.bytes(max(0, size - 30)))
+
+    sz = lambda: rng.pick([1, 40, 3001, 5000, 65536, 70000, 262144, 300000, 600000])
+    h = lambda d: b3.data(d)
+    old_path = rng.pick(["old", "d/old"])
+    new_path = rng.pick(["fresh", "d/fresh", "e/f/fresh"])
+    initial = {old_path: blob("init", sz())}
+    puts = [(new_path, None, blob("create", sz())), (old_path, h(initial[old_path]), blob("replace", sz()))]
+    if rng.chance(1, 2):
+        puts.reverse()
+    if rng.chance(1, 2):
+        puts.append((new_path, h([c for p_, _, c in puts if p_ == new_path][0]), blob("again", sz())))
+    data = cbor.MAGIC + cbor.req_hello()
+    for pth, exp, body in puts:
+        data += cbor.req_put(pth, exp, len(body), h(body)) + body
+    data += cbor.req_get(old_path) + cbor.req_list() + cbor.req_bye()
+    allowed = {old_path: {ident(initial[old_path])}, new_path: {None}}
+    for pth, _, body in puts:
+        allowed[pth].add(ident(body))
+    errno_ = rng.pick([28, 28, 5, 122])
+    k = 0
+    outcomes = set()
+    while True:
+        k += 1
+        if k > 300:
+            res["inconclusive"] += 1
+            break
+        materialise(root, initial)
+        rmtree(home)
+        os.makedirs(home)
+        for f in os.listdir(wd):
+            if f.startswith("t1."):
+                os.unlink(os.path.join(wd, f))
+        r1 = session(root, data, env, trace=os.path.join(wd, "t1"), fail_at="%d:%d" % (k, errno_))
+        if r1["timed_out"]:
+            res["inconclusive"] += 1
+            break
+        tr = read_traces(os.path.join(wd, "t1"))
+        failed = [e for pid in tr for e in tr[pid] if e.op == "FAIL"]
+        if not failed:
+            break
+        res["evaluations"] += 1
+        fe = failed[0]
+        label = {"program": idx, "k": k, "errno": errno_, "failed_call": "%s %s" % (fe.extra, os.path.relpath(fe.p1, root) if fe.p1 and fe.p1.startswith(root) else fe.p1), "puts": [(p_, len(c)) for p_, _, c in puts]}
+        cnt("failed_calls[%s]" % fe.extra)
+        if r1["signal"] is not None:
+            res["viol"].append(("C10|hub-disk-fault|server-died-by-signal-%d" % r1["signal"], dict(label)))
+        reps, _ = parse_replies(r1["out"])
+        tree = walk_root(root)
+        for rel, (idv, _sz) in tree.items():
+            if rel.endswith(STAGING):
+                continue
+            if rel not in allowed:
+                if ".conflict-" in rel:
+                    continue  # a conflict-copy of a Put whose expectation no longer held after the fault
+                res["viol"].append(("C10|hub-disk-fault|unexpected-listable-path", dict(label, path=rel)))
+            elif idv not in allowed[rel]:
+                res["viol"].append(("C10|hub-disk-fault|path-holds-unverified-or-partial-bytes", dict(label, path=rel, size=_sz)))
+        for rel in allowed:
+            if None not in allowed[rel] and rel not in tree:
+                res["viol"].append(("C10|hub-disk-fault|path-vanished", dict(label, path=rel)))
+        # replies arrive in request order; a session that ended early answers a prefix
+        putreps = [rp for rp in reps if rp.get("kind") in ("PutResult", "Error")][: len(puts)]
+        last_ack = {}
+        for (pth, _, body), rp in zip(puts, putreps):
+            if rp.get("kind") == "PutResult" and rp.get("committed"):
+                last_ack[pth] = body
+            elif rp.get("kind") == "PutResult":
+                last_ack.pop(pth, None)
+        answered = len(putreps)
+        for pth, body in last_ack.items():
+            later_unanswered = any(p_ == pth for p_, _, _ in puts[answered:])
+            if not later_unanswered and tree.get(pth, (None,))[0] != ident(body):
+                res["viol"].append(("C10|hub-disk-fault|acknowledged-put-is-not-the-live-content", dict(label, path=pth)))
+        outcomes.add((fe.extra, tuple(rp.get("kind") for rp in reps), tuple(sorted((rel, v[0]) for rel, v in tree.items() if not rel.endswith(STAGING)))))
+    cnt("fault_points", k - 1)
+    for oc in outcomes:
+        res["distinct"].add("diskfault|%d|%x" % (idx, hash(oc) & 0xFFFFFFFF))
+    res["samples"].append({"program": idx, "fault_points": k - 1, "errno": errno_})
+    b3.close()
+    rmtree(wd)
+    return res
+
+
 def c10(tier):
     build("cli", "shim", "vh")
     r = Result("C10", "exploration", "one evaluation = one gated schedule (as C03, with more Gets, larger contents and kills) or one (program, k) of a kill sweep or one malformed Put; after EVERY scheduling step ROOT is walked and every listable non-staging file must be byte-identical to its initial content or to one complete Put whose streamed bytes hashed to its declared hash (unique contents make membership exact); kill sweeps answer KILL at gate k of a server for every k of a fixed program and base schedule; malformed Puts (wrong hash, short content then EOF with the hash of the full or of the short bytes, length larger/smaller than sent) must change no listable path and not be acknowledged; every Get reply must deliver exactly len bytes hashing to the announced hash with the stream staying in step; distinct non-trivial = step sequences with overlapping staging or a Get overlapped by a commit, kills by gate kind, malformed-Put kinds by reply")
@@ -973,6 +1078,9 @@ def c10(tier):
     nsp = 64 if th else 10
     fold(r, run_jobs(_c10_samepid_worker, [(seed(), i + (seed() * 1000 if not th else 0), wroot) for i in range(nsp)]))
     r.extra["same_pid_successor_programs"] = nsp
+    ndf = 96 if th else 12
+    fold(r, run_jobs(_c10_diskfault_worker, [(seed(), i + (seed() * 1000 if not th else 0), wroot) for i in range(ndf)]))
+    r.extra["hub_disk_fault_programs"] = ndf
     rmtree(wroot)
     r.extra["kill_sweeps"] = {"programs": nsweeps, "victims_per_program": 2, "k_range": "1..160 (sweep ends at the victim's last gate)"}
     r.assumptions = ["kills land at gates (before libc calls) of the victim server", "sync_all -> nothing is not observable by a process kill; the order 'hash verified before rename' is", "staging names are recognised only by the .copia-tmp suffix"]
@@ -985,13 +1093,13 @@ def c10(tier):
 PIDNS = ["unshare", "-p", "-f", "--kill-child", "bash", "-c", '"$0" "$@"; exit $?']
 
 
-def session(root, data, env, trace=None, alloc_floor=None, pieces=None, rlimit_as_kib=None, timeout=30, close_after=True, valgrind=False, pidns=False, kill_at=None):
+def session(root, data, env, trace=None, alloc_floor=None, pieces=None, rlimit_as_kib=None, timeout=30, close_after=True, valgrind=False, pidns=False, kill_at=None, fail_at=None):
     """Feed `data` (bytes, or list of pieces) to one `copia serve root`; returns dict(out, err, code, signal, timed_out).
     pidns: the server runs in a pid namespace of its own, below a shell that is the namespace's init, so that
     its getpid() is the same small number in every such session (a server that has the pid of a killed one)."""
     e = env
-    if trace or alloc_floor or kill_at:
-        e = shim_env(env, log=trace, alloc_floor=alloc_floor, kill_at=kill_at, kill_class="mutating" if kill_at else None)
+    if trace or alloc_floor or kill_at or fail_at:
+        e = shim_env(env, log=trace, alloc_floor=alloc_floor, kill_at=kill_at, kill_class="mutating" if kill_at else None, fail_at=fail_at, fail_class="mutating" if fail_at else None)
     argv = [COPIA, "serve", root]
     if pidns:
         argv = PIDNS + argv
